@@ -103,6 +103,7 @@ func c14Body(o c14Opts) func() {
 		}
 		var ths []*vrt.Thread
 		var errsAfter []error
+		var heldStream *Stream
 		victim := p.c // the session whose closure is observed by the workload
 		switch o.work {
 		case "echo", "callback-echo":
@@ -152,6 +153,29 @@ func c14Body(o c14Opts) func() {
 					st.Close()
 				}))
 			}
+		case "hold-stream":
+			ths = append(ths, vrt.GoProc("client", 1, func() {
+				st, err := p.c.OpenStream()
+				if err != nil {
+					return
+				}
+				heldStream = st
+				if c09Flush(st, 1, 0, 5) == nil {
+					st.SetReadDeadline(vrt.Now().Add(20 * vrt.Second))
+					st.BufferReader().ReadBytes(5)
+				}
+			}))
+			ths = append(ths, vrt.GoProc("server", 2, func() {
+				st, err := p.s.AcceptStream()
+				if err != nil {
+					return
+				}
+				st.SetReadDeadline(vrt.Now().Add(20 * vrt.Second))
+				if b, err := st.BufferReader().ReadBytes(5); err == nil {
+					st.BufferWriter().WriteBytes(b)
+					st.Flush(false)
+				}
+			}))
 		case "flush-full-queue":
 			ths = append(ths, vrt.GoProc("client", 1, func() {
 				st, err := p.c.OpenStream()
@@ -210,6 +234,19 @@ func c14Body(o c14Opts) func() {
 		t := vrt.GoProc("late", victimProc(p, victim), func() {
 			_, lateErr = victim.OpenStream()
 			victim.Close() // idempotent
+			if heldStream != nil && victim == p.c {
+				// a stream the user still holds: every later call fails with an error (and touches nothing that is gone)
+				heldStream.BufferWriter().WriteBytes(patBytes(1, 0, 100))
+				if err := heldStream.Flush(false); err == nil {
+					vrt.Failf("late-call-succeeded", "Flush on a stream of a closed session returned nil")
+				}
+				if _, err := heldStream.BufferReader().ReadBytes(3); err == nil {
+					vrt.Failf("late-call-succeeded", "ReadBytes on a stream of a closed session returned data")
+				}
+				heldStream.BufferReader().ReleasePreviousRead()
+				heldStream.Close()
+				heldStream.Close()
+			}
 		})
 		vrt.WaitThreads(t)
 		if lateErr == nil {
@@ -251,10 +288,12 @@ func TestVerif_C14(t *testing.T) {
 		mk(c14Opts{name: "echo-server-close-file", work: "echo", closer: "server", file: true}, 1, 2),
 		mk(c14Opts{name: "echo-both-close", work: "echo", closer: "both"}, 1, 2),
 		mk(c14Opts{name: "echo-double-close", work: "echo", closer: "double-client"}, 1, 2),
-		mk(c14Opts{name: "echo-kill-server", work: "echo", closer: "kill-server"}, 2, 3),
-		mk(c14Opts{name: "echo-kill-client", work: "echo", closer: "kill-client"}, 2, 3),
+		mk(c14Opts{name: "echo-kill-server", work: "echo", closer: "kill-server"}, 1, 2),
+		mk(c14Opts{name: "echo-kill-client", work: "echo", closer: "kill-client"}, 1, 2),
 		mk(c14Opts{name: "callback-echo-client-close", work: "callback-echo", closer: "client"}, 1, 2),
 		mk(c14Opts{name: "callback-echo-kill-client", work: "callback-echo", closer: "kill-client"}, 1, 2),
+		mk(c14Opts{name: "hold-stream-kill-server", work: "hold-stream", closer: "kill-server"}, 1, 2),
+		mk(c14Opts{name: "hold-stream-client-close", work: "hold-stream", closer: "client"}, 1, 2),
 		mk(c14Opts{name: "open-streams-vs-close", work: "open-streams", closer: "client"}, 2, 3),
 		mk(c14Opts{name: "metrics-vs-close", work: "metrics", closer: "client"}, 2, 3),
 		mk(c14Opts{name: "flush-full-queue-vs-close", work: "flush-full-queue", closer: "client", queueCap: 1, stallPeer: true}, 2, 3),
